@@ -6,9 +6,9 @@
    primitive binary64 floats, is compared bit for bit with nelder_mead_1d on every run (result and the whole sequence of
    evaluated points).  Gen/AutoCalc.v (regenerated from src/ on every run) says how optimum_poling_period and
    CrystalSetup::optimum_theta drive it (seeds, bounds, iteration limit, tolerance, early exit, final test, sign). *)
-From Coq Require Import Reals List Bool.
+From Coq Require Import Reals List Bool Floats.
 From SpdVerif Require Import Base.Rx Base.Vec3 Gen.Idler Gen.AutoCalc Model.Idler Model.NM1d Model.AutoCalc
-  Proofs.C03_base Proofs.C03_idler Proofs.C04_nm Proofs.C04_poling Proofs.C04_collinear Proofs.C04_all Proofs.C04_conv Proofs.C04_conv_poling.
+  Proofs.C03_base Proofs.C03_idler Proofs.C04_nm Proofs.C04_poling Proofs.C04_collinear Proofs.C04_all Proofs.C04_conv Proofs.C04_conv_poling Proofs.C04_sim Proofs.C04_float.
 Local Open Scope R_scope.
 
 (* a strict weak order on the finite costs (binary64 without NaN, Q and R are) *)
@@ -184,6 +184,48 @@ Example C04_conv_nonvacuous :
   ~ doublings (-10) 10 h (steps (-10) 10 h 0 (init Rltb (vcost (-10) 10 h) 1 2)).
 Proof. exact conv_nonvacuous. Qed.
 
+(* ------------------------------------------------------------------------------------------------------------------------
+   REFINEMENT between instances of the model. *)
+
+(* generic: corresponding seeds, and candidate points / costs / orders / termination tests corresponding along the first run
+   => corresponding results and evaluation traces *)
+Theorem C04_nm_simulation : forall (P1 K1 P2 K2 : Type) (klt1 : K1 -> K1 -> bool) (klt2 : K2 -> K2 -> bool)
+  (o1 : @ops P1) (o2 : @ops P2) (f1 : P1 -> @ecost K1) (f2 : P2 -> @ecost K2) sd1 sd2 (phi : P1 -> P2) (psi : K1 -> K2)
+  (okc : @ecost K1 -> Prop),
+  (forall a b, okc a -> okc b -> elt klt1 a b = elt klt2 (psie psi a) (psie psi b)) ->
+  (forall a b, okc a -> okc b -> sd1 a b = sd2 (psie psi a) (psie psi b)) ->
+  forall g0 g1 n, pt_ok f1 f2 phi psi okc g0 (phi g0) -> pt_ok f1 f2 phi psi okc g1 (phi g1) ->
+  run_ok klt1 o1 o2 f1 f2 sd1 phi psi okc n (init klt1 f1 g0 g1) ->
+  nm_result klt2 o2 f2 sd2 (phi g0) (phi g1) n = phi (nm_result klt1 o1 f1 sd1 g0 g1 n) /\
+  strace (nm_run klt2 o2 f2 sd2 (phi g0) (phi g1) n) = map phi (strace (nm_run klt1 o1 f1 sd1 g0 g1 n)).
+Proof. exact @nm_simulation. Qed.
+
+(* the primitive-binary64 instance (validated bit for bit against nelder_mead_1d each run) and the exact real instance
+   (the one of the convergence / wrapper theorems) compute the same run wherever every binary64 operation is exact *)
+Theorem C04_float_refines_real : forall (g : PrimFloat.float -> PrimFloat.float) (lo hi : PrimFloat.float) (G : R -> @ecost R) g0 g1 n,
+  let f := bounded lo hi g in
+  pt_ok f G fR fR okf g0 (fR g0) -> pt_ok f G fR fR okf g1 (fR g1) ->
+  run_ok PrimFloat.ltb float_ops real_ops f G (sd_small_float 0%float) fR fR okf n (init PrimFloat.ltb f g0 g1) ->
+  nm_result Rltb real_ops G (sd_real 0) (fR g0) (fR g1) n = fR (fst (nm_float g g0 g1 n lo hi 0%float)) /\
+  strace (nm_run Rltb real_ops G (sd_real 0) (fR g0) (fR g1) n)
+    = map fR (strace (nm_run PrimFloat.ltb float_ops f (sd_small_float 0%float) g0 g1 n)).
+Proof. exact float_refines_real. Qed.
+
+(* an exact binary64 addition / subtraction / multiplication: the real result is representable *)
+Theorem C04_float_ops_exact : forall x y, ffinite x = true -> ffinite y = true ->
+  (representable (fR x + fR y) -> fR (x + y)%float = fR x + fR y /\ ffinite (x + y)%float = true) /\
+  (representable (fR x - fR y) -> fR (x - y)%float = fR x - fR y /\ ffinite (x - y)%float = true) /\
+  (representable (fR x * fR y) -> fR (x * y)%float = fR x * fR y /\ ffinite (x * y)%float = true).
+Proof. exact (fun x y Hx Hy => conj (fadd_exact x y Hx Hy) (conj (fsub_exact x y Hx Hy) (fmul_exact x y Hx Hy))). Qed.
+
+Example C04_float_refinement_nonvacuous :
+  let g := fun _ : PrimFloat.float => 1%float in
+  let G := fun _ : R => @CFin R 1 in
+  let f := bounded (-16)%float 16%float g in
+  pt_ok f G fR fR okf 1%float (fR 1%float) /\ pt_ok f G fR fR okf 2%float (fR 2%float) /\
+  run_ok PrimFloat.ltb float_ops real_ops f G (sd_small_float 0%float) fR fR okf 1 (init PrimFloat.ltb f 1%float 2%float).
+Proof. exact float_refinement_nonvacuous. Qed.
+
 (* non-vacuity *)
 Example C04_nonvacuous_order : strict_weak_order Rltb.
 Proof. exact (conj Rltb_irrefl (conj Rltb_trans Rltb_cotrans)). Qed.
@@ -215,3 +257,6 @@ Print Assumptions C04_nm_run_converges.
 Print Assumptions C04_sd_stop_same_side.
 Print Assumptions C04_conv_bracket_cost.
 Print Assumptions C04_poling_search_converges.
+Print Assumptions C04_nm_simulation.
+Print Assumptions C04_float_refines_real.
+Print Assumptions C04_float_ops_exact.
